@@ -23,10 +23,10 @@ const (
 )
 
 type jnode struct {
-	Kind  byte
-	Keys  []string
-	Vals  []*jnode // object values (parallel to Keys) or array elements
-	Text  string   // string value / raw number text / "true" / "false"
+	Kind byte
+	Keys []string
+	Vals []*jnode // object values (parallel to Keys) or array elements
+	Text string   // string value / raw number text / "true" / "false"
 }
 
 func (n *jnode) clone() *jnode {
